@@ -1912,6 +1912,7 @@ class Rule(metaclass=LogicalType):
                         f"prefixItems required prefix: [{i}] not provided", item=i
                     )
                 )
+                continue
 
             with context.enter(route=i) as arg_context:
                 try:
